@@ -103,7 +103,69 @@ void run(Ctx &c, bool scripted) {
 }
 }
 
-void verif_case(Ctx &c) { if(c.t.pick(4) == 0) run(c, true); else run(c, false); }
+// ---- an end point type whose move constructor changes its source -------------------------------
+// (a string-like key: moved-from equals the value-initialised P{}). The tree may copy end points, but a query must be
+// evaluated with the values it was given; which of two by-value parameters is initialised first is up to the compiler,
+// so this is also run in the g++ build.
+namespace {
+struct MI {
+	int v;
+	MI() : v(0) {}
+	MI(int x) : v(x) {}
+	MI(const MI &o) : v(o.v) {}
+	MI(MI &&o) noexcept : v(o.v) { o.v = 0; }
+	MI &operator=(const MI &o) { v = o.v; return *this; }
+	MI &operator=(MI &&o) noexcept { v = o.v; if(this != &o) o.v = 0; return *this; }
+	bool operator<(const MI &o) const { return v < o.v; }
+	bool operator<=(const MI &o) const { return v <= o.v; }
+	bool operator>(const MI &o) const { return v > o.v; }
+	bool operator>=(const MI &o) const { return v >= o.v; }
+	bool operator==(const MI &o) const { return v == o.v; }
+};
+struct MNode {
+	MI lo, hi; int serial, hits;
+	frg::rbtree_hook rb;
+	frg::interval_hook<MI> ih;
+	MNode() { serial = hits = 0; }
+};
+using MTree = frg::interval_tree<MNode, MI, &MNode::lo, &MNode::hi, &MNode::rb, &MNode::ih>;
+}
+void run_moving(Ctx &c) {
+	auto &t = c.t;
+	constexpr int N = 40;
+	MNode *pool = (MNode *)c.raw(sizeof(MNode) * N);
+	memset((void *)pool, 0xA5, sizeof(MNode) * N);
+	for(int i = 0; i < N; i++) { new (&pool[i]) MNode; pool[i].serial = i; }
+	MTree *tree = c.make<MTree>();
+	std::vector<MNode *> ref; int next_free = 0;
+	int U = 9, OFF = t.flip() ? 1 : -4;     // end points in 1..9 or -4..4 (0, the moved-from value, lies outside resp. inside the universe)
+	c.op("interval tree over an end point type with a stealing move constructor, universe %d..%d", OFF, OFF + U - 1);
+	c.tag("moving-endpoint-type");
+	unsigned nops = 2 + t.pick(30);
+	bool interesting = false;
+	for(unsigned i = 0; i < nops; i++) {
+		unsigned op = t.pick(6);
+		if((op < 3 || ref.empty()) && next_free < N) { int lo = OFF + (int)t.pick(U); int hi = lo + (int)t.pick(OFF + U - lo); MNode *n = &pool[next_free++]; n->lo = MI(lo); n->hi = MI(hi); c.op("insert [%d,%d]", lo, hi); tree->insert(n); ref.push_back(n); }
+		else if(op == 3 && !ref.empty()) { size_t k = t.pick(ref.size()); c.op("remove [%d,%d]", ref[k]->lo.v, ref[k]->hi.v); tree->remove(ref[k]); ref.erase(ref.begin() + k); }
+		for(int lb = OFF - 1; lb <= OFF + U; lb++) for(int ub = lb; ub <= OFF + U; ub += (ub - lb < 2 ? 1 : 3)) {
+			for(int form = 0; form < (lb == ub ? 2 : 1); form++) {
+				for(MNode *n : ref) n->hits = 0;
+				auto fn = [&](MNode *n) { n->hits++; };
+				if(form == 1) { MI point(lb); tree->for_overlaps(fn, point); VCHECK(c, "C07", point.v == lb, "for_overlaps(fn, p) changed its argument"); }
+				else { MI a(lb), b(ub); tree->for_overlaps(fn, a, b); }
+				size_t expect = 0;
+				for(MNode *n : ref) { bool ov = n->lo.v <= ub && lb <= n->hi.v; if(ov) expect++;
+					VCHECK(c, "C07", n->hits == (ov ? 1 : 0), "for_overlaps(%d, %d)%s: the callback ran %d time(s) for the stored interval [%d, %d], which %s", lb, ub, form ? " (one-argument form)" : "", n->hits, n->lo.v, n->hi.v, ov ? "overlaps" : "does not overlap"); }
+				if(expect > 0 && expect < ref.size()) interesting = true;
+			}
+		}
+		for(MNode *n : ref) VCHECK(c, "C07", n->lo.v <= n->hi.v, "a stored interval was changed to [%d,%d]", n->lo.v, n->hi.v);
+	}
+	c.check_san("C07");
+	c.nontrivial = interesting;
+}
+
+void verif_case(Ctx &c) { unsigned k = c.t.pick(5); if(k == 0) run(c, true); else if(k == 4) run_moving(c); else run(c, false); }
 
 // all sequences of <= 4 intervals over endpoints 0..3 (10 intervals) in every insertion order,
 // every single removal (or none), all queries after every step
